@@ -461,7 +461,7 @@ def _A(x):
     return ["None"] if x is None else ["N", x]
 
 
-def gen_case(rng, prop, fault_rate=0.1, invalid_rate=0.15, nmin=3, nmax=7, maxops=14, stratum=None):
+def gen_case(rng, prop, fault_rate=0.1, invalid_rate=0.15, nmin=3, nmax=7, maxops=14, stratum=None, only_valid=False):
     n = rng.randint(nmin, nmax)
     sh = Shadow(n)
     ops = []
@@ -654,6 +654,8 @@ def gen_case(rng, prop, fault_rate=0.1, invalid_rate=0.15, nmin=3, nmax=7, maxop
             if invalid and rng.random() < 0.15:
                 l = ["Junk"]
             op = ["New", l, r, par, ch, fault(), fault()]
+        if only_valid and not sh.copy().apply(op):
+            continue
         ops.append(op)
         sh.apply(op)
     return {"assert": True, "n": n, "prefix": [], "branches": [ops], "stratum": stratum}
@@ -789,7 +791,7 @@ def generate(prop, rng, tier):
         # the two- and three-node scopes are cheap enough for every run
         yield from enumerate_cases(prop, sizes=(2, 3), per_case=80)
     for i in range(count):
-        c = gen_case(rng, prop, fault_rate=fr, invalid_rate=ir)
+        c = gen_case(rng, prop, fault_rate=fr, invalid_rate=ir, only_valid=(prop == "C20"))
         yield c["stratum"], c
 
 
